@@ -39,6 +39,12 @@ structure State (K : Type) where
   callerY : List K
   deriving Repr
 
+/-- an action of the *environment*, not of the library: the caller edits, in place, the working arrays that
+`get()` handed out (`gx, gy = wv.get(); gx += d`).  The Weaver holds the very same objects, so its working
+series changes and nothing else does. -/
+def State.poke {K : Type} [Add K] (s : State K) (dx dy : K) : State K :=
+  { s with x := s.x.map (· + dx), y := s.y.map (· + dy) }
+
 /-- outcome of a step: the state afterwards and the error raised, if any -/
 structure StepResult (K : Type) where
   state : State K
